@@ -160,7 +160,14 @@ impl Storage {
             "Recovering from wal checkpoint {}",
             earliest_uncommited_wal_id
         );
-        let wal_files = writer.list(wal_dir).unwrap();
+        // Only `<id>.wal` files are log segments; a crash while a segment is being written
+        // leaves its staging file (`<id>..INCOMPLETE`) behind, which must not be replayed.
+        let wal_files: Vec<_> = writer
+            .list(wal_dir)
+            .unwrap()
+            .into_iter()
+            .filter(|path| path.extension().is_some_and(|ext| ext == "wal"))
+            .collect();
         let num_wal_files = wal_files.len();
         log::info!("Found {} wal segments", wal_files.len());
 
